@@ -1340,12 +1340,48 @@ class Core:
         st = self.b.eval(start, f) if start is not None else (0, 0)
         if sb[1] < INF and st[0] > -INF and sb[1] - st[0] <= BOUND_MAX:
             return ("bounded", "trip count <= %d (stop in %s, start in %s)" % (max(0, sb[1] - st[0]), iv_str(sb), iv_str(st)))
-        if self._len_bounded(stop, start):
-            return ("len", "trip count bounded by the length of an in-memory collection")
+        if self._len_bounded(stop, start) or self._size_bounded(f, it):
+            return ("len", "trip count bounded by the length of an in-memory collection / of the input")
         val = self._validated_count(f, stop)
         if val is not None and (start is None or st[0] >= 0):
             return ("validated", val)
         return ("input", "stop in %s" % iv_str(sb))
+
+    def _size_bounded(self, f: Func, it: ast.Call):
+        """range(size - c, -1, -1) / range(size) / range(0, size - c) where `size` is the length of the input:
+        a local whose definition is len(<bytes>), S.seek(0, SEEK_END), <buffer>.nbytes"""
+        def is_size(e, depth=0):
+            if depth > 3:
+                return False
+            if isinstance(e, ast.Call):
+                if isinstance(e.func, ast.Name) and e.func.id == "len":
+                    return True
+                if isinstance(e.func, ast.Attribute) and e.func.attr == "seek" and len(e.args) == 2 and ast.unparse(e.args[1]).split(".")[-1] in ("SEEK_END", "2") \
+                        and self.b.fold(e.args[0], f) == 0:
+                    return True
+                return False
+            if isinstance(e, ast.Attribute) and e.attr == "nbytes":
+                return True
+            if isinstance(e, ast.BinOp) and isinstance(e.op, (ast.Add, ast.Sub, ast.FloorDiv)):
+                c = self.b.fold(e.right, f)
+                return isinstance(c, int) and is_size(e.left, depth + 1)
+            if isinstance(e, ast.Name) and parent(e) is not None:
+                dd = self.cg.dominating_def(e, f)
+                return dd is not None and is_size(dd, depth + 1)
+            return False
+        a = it.args
+        consts = lambda e: isinstance(self.b.fold(e, f), int)
+        if len(a) == 1:
+            return is_size(a[0])
+        if len(a) == 2:
+            return consts(a[0]) and is_size(a[1])
+        if len(a) == 3:
+            step = self.b.fold(a[2], f)
+            if isinstance(step, int) and step < 0:
+                return is_size(a[0]) and consts(a[1])
+            if isinstance(step, int) and step > 0:
+                return consts(a[0]) and is_size(a[1])
+        return False
 
     @staticmethod
     def _len_bounded(stop, start):
@@ -1454,6 +1490,7 @@ class Core:
         the stream handed to g has advanced >= 1 with >= 1 anchored checked byte since f was entered, or
         when an argument is a strictly shorter slice of one of f's parameters."""
         ids = {id(f.node) for f in comp}
+        handed_any = [False]
         nonprog = nx.DiGraph()
         details = []
         unresolved = []
@@ -1471,14 +1508,17 @@ class Core:
                 why = "no stream of %s is handed to %s" % (f.qualname, tgt.qualname)
                 for ckey, k in mapping.items():
                     if k.split(".")[0] in params:
+                        handed_any[0] = True
                         p, a = before.p(k), before.a(k)
                         if p[0] >= 1 and a >= 1:
                             ok = True
                             why = "`%s` advanced %s with >= %d checked byte(s) before the call" % (k, iv_str(p), a)
                         else:
                             why = "`%s` advanced only %s with >= %d checked byte(s) before the call" % (k, iv_str(p), a)
-                            dfn = (-INF < p[0] <= 0) and not run.loose and all(run.read_result_is_inert(rc, on_path=False) for rc in run.unchecked_reads) \
-                                and all(self.callee_zero_path(t_, k_, 0) for t_, k_ in run.zero_callees)
+                            # an exact position involves no "the read may have returned nothing" slack
+                            dfn = (-INF < p[0] <= 0) and not run.loose and (
+                                p[0] == p[1] or (all(run.read_result_is_inert(rc, on_path=False) for rc in run.unchecked_reads)
+                                                 and all(self.callee_zero_path(t_, k_, 0) for t_, k_ in run.zero_callees)))
                 if not ok and self._shrinking_arg(cnode, params):
                     ok = True
                     why = "an argument is a strictly shorter slice of a parameter"
@@ -1497,6 +1537,9 @@ class Core:
         if cyc is None:
             return Cert("K5", "every cycle of the SCC passes a call site before which the handed-down stream advanced by >= 1 checked byte "
                         "(%d recursive call sites, %d without progress, no cycle among those)" % (len(details), nonprog.number_of_edges())), details
+        if not any(d.get("handed") for _, _, d in nonprog.edges(data=True)) and not handed_any[0]:
+            return Cert("K5r", "no input stream is handed down the recursion: its depth is bounded by the interpreter's recursion limit "
+                        "(result or RecursionError), and every loop inside is certified on its own"), details
         first = nonprog[cyc[0][0]][cyc[0][1]]
         c = Cert(None, why="recursion cycle without consumed input: " + " -> ".join(
             nonprog[u][v]["src"].qualname for u, v, *_ in cyc) + " -> ...", unresolved=unresolved)
@@ -1673,7 +1716,7 @@ def fixture_selfcheck(ctx):
         if got != want:
             raise AnalysisError("fixture %s: expected verdict %r, rule says %r -- the rule lost its teeth / over-reports (%s)"
                                 % (name, want, got, (sk.bad[0][2][:160] if sk.bad else (und[0][1][:160] if und else ""))))
-    for name, want in (("rec_bad", "undecided"), ("rec_stream_bad", "finding"), ("rec_ok", "cert")):
+    for name, want in (("rec_bad", "cert"), ("rec_stream_bad", "finding"), ("rec_ok", "cert")):
         f = core.cg.func(rel, name)
         comps = core.recursive_sccs([f])
         if not comps:
